@@ -6,17 +6,35 @@ VERIF = os.path.dirname(os.path.dirname(os.path.abspath(__file__)))
 TRUST = ('Trusted base: clang 14 C++->LLVM IR, LLVM sroa/mem2reg, /verif/vf/ll2c.py, CBMC 6.11 and its solvers, cvc5 bv-to-int. '
          'Results are per instantiation of the stated grid (all input values of each instance, not all instances). ')
 
+H = 'contract harness (assume requires / call / assert ensures + UB:* assertions) on the clang-lowered real instantiations, decided by CBMC with SAT (MiniSat, CaDiCaL, kissat) raced against cvc5 int-blast and z3 on the exported SMT2'
 CHECKS = {
     'C03': dict(text='Contract on the really-lowered instantiations of Quantity::coerce_in/coerce_as/in/as: requires the real '
                      'is_conversion_lossy to be false, ensures result*D == x*N in wide arithmetic and every UB:*/WRAP:* assertion in the '
                      'conversion closure; discharged for all stored values of each (rep, N/D) instance.',
-                note=TRUST + 'Checker evaluated under wrap-around semantics while deciding.', ref='5 (C03)',
-                tech='CBMC contract harness on clang-lowered real code, SAT + cvc5 int-blast'),
+                note=TRUST + 'Checker evaluated under wrap-around semantics while deciding.', ref='5 (C03)', tech=H),
     'C04': dict(text='Both checkers are proved EQUAL to the exact range / divisibility predicate for all values of each (rep, N/D) '
-                     'instance; is_conversion_lossy is their disjunction.',
+                     'instance; is_conversion_lossy is their disjunction; floating reps: the two implications the property states.',
                 note=TRUST + "Euclid's lemma (gcd(N,D)=1, checked per instance) restates 'D does not divide x*N' as 'D does not divide x'. "
-                             'One open known finding (KF-C04-1).', ref='5 (C04)',
-                tech='CBMC contract harness on clang-lowered real code, SAT + cvc5 int-blast'),
+                             'One open known finding (KF-C04-1).', ref='5 (C04)', tech=H),
+    'C05': dict(text='Per (source rep, target rep, N/D): not-lossy<T> implies exact result and every cast/scaling step defined (UB:* incl. float->int range); '
+                     'the checker itself is UB-free; overflow<T> only when a step really leaves its range. Floating sources: value-preserving cast of the '
+                     'computed product, with the fp scaling step under its purity contract (companion obligation proves NaN->NaN).',
+                note=TRUST + 'long double excluded. Two genuine defects found and fixed in /repo (see known_findings.json fixed entries).', ref='5 (C05)',
+                tech=H + '; callee replaced by purity contract for the fp scaling step'),
+    'C08': dict(text='Mixed-unit == != < <= > >= + - % and C++20 <=> equal the exact comparison / sum / difference / remainder of value*k in wide arithmetic '
+                     'under the property\'s no-overflow precondition; floating reps: bit-exact relational contract with scaling and same-unit operator as callee contracts.',
+                note=TRUST + 'floating "few ulp" distance to the exact rational is not decided.', ref='5 (C08)', tech=H),
+    'C09': dict(text='Point conversions equal the exact affine map (independent rational table) for bounded inputs; point-point, point+-quantity, comparisons by '
+                     'absolute position; the unbounded letter of the property at the F->mK int32 call site (known finding KF-C09-1).',
+                note=TRUST + 'inputs bounded per obligation (stated); compile-time rejections N/A; floating reps not covered.', ref='5 (C09)', tech=H),
+    'C10': dict(text='Relational contract: r_i(x) == c_i + m_i*x for all x in range, m_i >= 1, c_i >= 0, cross-consistency of (m_i, c_i) with the independent unit '
+                     'sizes and origins, lowest origin maps to 0.', note=TRUST + 'type identity under permutation N/A.', ref='5 (C10)', tech=H),
+    'C13': dict(text='Same-unit + - % unary += -= *= /= scalar * / and comparisons equal the raw operator on the promoted operands for all values where the raw '
+                     'expression is defined; in()/data_in()/default construction; floating reps bit for bit.',
+                note=TRUST + 'layout/triviality/result types are compile-time facts, not decided. One open known finding (KF-C13-1, -0.0 through QuantityPoint::in).',
+                ref='5 (C13)', tech=H),
+    'C19': dict(text='For every value (all bit patterns for floating reps): comparisons with ZERO equal comparisons with 0 in both orders, q+-ZERO == q, '
+                     'Quantity(ZERO) holds 0, T(ZERO) == 0, duration(ZERO).count() == 0.', note=TRUST + 'point rejection N/A.', ref='5 (C19)', tech=H),
 }
 NA = {
     'C01': 'Ill-formed programs have no function to put under contract; the deciding agent is the C++ type checker, not a program verifier.',
